@@ -54,8 +54,31 @@ def main(argv=None):
                 ob.saw('btc_hd_wallet/')
         from . import evalr as _ev
         _ev.Evaluator.TRACE.clear()
-        mod.run(ctx)
         from .props.purity import check_purity
+        try:
+            mod.run(ctx)
+        except loader.AnalysisError as e:
+            # a rule lost its anchor or met a structure it does not know: that rule is UNDECIDED, but what can still be
+            # said is said - the purity precondition over everything consulted so far and over every function of the
+            # files the property is anchored in (a memoised rewrite is reported as such, not only as "not analysable")
+            with ctx.obligation('ENGINE.ANCHOR', 'structure expected by the rules of %s' % pid) as ob:
+                ob.undecided('%s' % e)
+            extra = set()
+            try:
+                import json as _json
+                with open(os.path.join(report.VERIF, 'properties.jsonl')) as f:
+                    for line in f:
+                        d = _json.loads(line)
+                        if d.get('id') == pid:
+                            files = set(d.get('anchors', {}).get('files', []))
+                            extra = {q for q, fi in prog.functions.items() if fi.module.relpath in files}
+            except Exception:
+                pass
+            check_purity(ctx, pid, sorted(set(_ev.Evaluator.TRACE) | extra))
+            code, lines = ctx.finish()
+            for l in lines:
+                print(l)
+            return code
         check_purity(ctx, pid, sorted(_ev.Evaluator.TRACE))
         if a.tier == 'thorough' and hasattr(mod, 'thorough'):
             mod.thorough(ctx)
